@@ -24,15 +24,20 @@ import (
 )
 
 type Generated struct {
-	File     parser.TemplateFile
-	Go       string // gofmt-ed
-	RawGo    string // as written by the generator
-	Output   generator.GeneratorOutput
+	File   parser.TemplateFile
+	Go     string // gofmt-ed
+	RawGo  string // as written by the generator
+	Output generator.GeneratorOutput
 }
 
 // Generate does what `templ generate` does for one file: parse, generate, gofmt.
 // stage tells which step failed: "parse", "generate", "gofmt".
 func Generate(src, fileName string) (g Generated, stage string, err error) {
+	return GenerateOpts(src, fileName)
+}
+
+// GenerateOpts is Generate with extra generator options (e.g. generator.WithVersion).
+func GenerateOpts(src, fileName string, opts ...generator.GenerateOpt) (g Generated, stage string, err error) {
 	defer func() {
 		if x := recover(); x != nil {
 			err = fmt.Errorf("panic in %s: %v", stage, x)
@@ -47,7 +52,7 @@ func Generate(src, fileName string) (g Generated, stage string, err error) {
 	g.File = tf
 	stage = "generate"
 	var buf bytes.Buffer
-	out, err := generator.Generate(tf, &buf, generator.WithFileName(fileName))
+	out, err := generator.Generate(tf, &buf, append(opts, generator.WithFileName(fileName))...)
 	if err != nil {
 		return g, stage, err
 	}
